@@ -468,7 +468,7 @@ class Gen:
         opts += ["stack"]
         c = r.choice(opts)
         if c == "csvpath":
-            return L.t_ref("csvpath", r.choice(["count_lines", "line_number", "count_matches", "count_scans", "total_lines"]))
+            return L.t_ref("csvpath", r.choice(["count_lines", "line_number", "count_matches", "count_scans", "total_lines", "valid", "stopped"]))
         if c == "undef":
             return L.t_ref("variables", "nosuchvar")
         if c == "var":
